@@ -107,7 +107,44 @@ def family_spec(family, n, seed=0):
     return sp
 
 
-FAMILIES = ['chain', 'ladder2', 'ladder4', 'ladder3-mixed', 'fib', 'diamond', 'comb', 'grid', 'random-shared', 'tree4']
+FAMILIES = ['chain', 'ladder2', 'ladder4', 'ladder3-mixed', 'fib', 'diamond', 'comb', 'grid', 'random-shared', 'tree4', 'mu-ladder', 'mp-chain', 'mu-mixed', 'pruned-fan']
+EXOTIC_FAMILIES = ('mu-ladder', 'mp-chain', 'mu-mixed', 'pruned-fan')
+
+
+def exotic_family(family, n):
+    """Sharing families made of exotic cells (valid Merkle proofs / updates / pruned branches), as RCells."""
+    from refmodel.rcell import merkle_update_of, merkle_proof_of, pruned_of
+    c = RCell(enc_uint(0xC19, 32))
+    if family == 'mu-ladder':
+        for i in range(1, n):
+            c = merkle_update_of(c, c)
+    elif family == 'mp-chain':
+        for i in range(1, n):
+            c = merkle_proof_of(c)
+    elif family == 'mu-mixed':
+        for i in range(1, n):
+            c = merkle_update_of(c, c) if i % 2 else RCell(enc_uint(i, 32), (c, c))
+    elif family == 'pruned-fan':
+        leaves = [pruned_of(RCell(enc_uint(j, 16)), 1) for j in range(3)]
+        c = RCell(enc_uint(1, 32), leaves)
+        for i in range(2, n):
+            c = RCell(enc_uint(i, 32), (c, leaves[i % 3], c))
+        c = merkle_proof_of(c)
+    return c
+
+
+def rcell_size(root):
+    seen = {}
+    stack = [root]
+    e = 0
+    while stack:
+        c = stack.pop()
+        if c.hash in seen:
+            continue
+        seen[c.hash] = 1
+        e += len(c.refs)
+        stack.extend(c.refs)
+    return len(seen), e
 
 
 def spec_size(sp):
@@ -171,7 +208,7 @@ class WorkWorld(World):
 
     def rule(self):
         return ('Time = executed source lines of pytoniq_core (step clock). dag: for a family in {chain, ladder with 2/3/4 repeated references, fibonacci, diamond chain, comb, grid (binomially many paths), '
-                'random heavy sharing, unshared 4-ary tree} at n distinct cells and e references (n+e <= 160) each of 19 operations (to_boc in 3 option sets, order with and without argument, from_boc of own '
+                'random heavy sharing, unshared 4-ary tree, ladders of Merkle updates / proofs and mixed exotic-ordinary ladders, pruned-branch fans} at n distinct cells and e references (n+e <= 160) each of 19 operations (to_boc in 3 option sets, order with and without argument, from_boc of own '
                 'and of reference-encoded bytes, copy, hash/==/dict key, slice walk, to_builder, Slice.to_cell, wrapping store_ref+end_cell, recomputed representation hash, Slice.one_from_boc, '
                 'store_cell, Slice.from_cell, Slice.copy, store_slice) must finish within 10000 + 5000(n+e) + 50(n+e)^2 steps, and steps(2n) <= 8 steps(n) + 10000. boc-bytes / tl-bytes: every damaged input of length L must finish (return '
                 'or raise) within 10000 + 5000 L steps; per sampled input the byte-position x extreme-value set is enumerated exhaustively. dict: parse of a dictionary tree of c cells within the dag '
@@ -187,7 +224,8 @@ class WorkWorld(World):
     def make_config(self, rng, leg, run_index):
         if leg == 'dag':
             fam = FAMILIES[run_index % len(FAMILIES)]
-            per = {'chain': 4, 'ladder2': 3, 'ladder4': 5, 'ladder3-mixed': 4, 'fib': 3, 'diamond': 3, 'comb': 5, 'grid': 3, 'random-shared': 4, 'tree4': 2}[fam]
+            per = {'chain': 4, 'ladder2': 3, 'ladder4': 5, 'ladder3-mixed': 4, 'fib': 3, 'diamond': 3, 'comb': 5, 'grid': 3, 'random-shared': 4, 'tree4': 2,
+                   'mu-ladder': 3, 'mp-chain': 2, 'mu-mixed': 3, 'pruned-fan': 4}[fam]
             nmax = 160 // per // 2     # so that the 2n instance still has n+e <= 160
             return {'family': fam, 'n': rng.randint(4, max(5, nmax)), 'nmax': nmax, 'seed': rng.getrandbits(32)}
         if leg == 'boc-bytes':
@@ -274,20 +312,28 @@ class WorkWorld(World):
         raise AssertionError(what)
 
     def _dag_measure(self, ctx, fam, n, seed, whats, ops_prefix, record):
-        sp = family_spec(fam, n, seed)
-        nn, e = spec_size(sp)
+        if fam in EXOTIC_FAMILIES:
+            rroot = exotic_family(fam, n)
+            nn, e = rcell_size(rroot)
+            sp = rroot
+            builder = lib_cell_from_rcell      # Cell(bits, refs, type) bottom-up
+        else:
+            sp = family_spec(fam, n, seed)
+            nn, e = spec_size(sp)
+            builder = build_lib
         budget = dag_budget(nn, e)
         out = {}
-        st, root, steps = metered(budget, build_lib, sp)
+        st, root, steps = metered(budget, builder, sp)
         ctx.evaluated(1)
         ctx.tick(steps)
         out['build'] = (st, steps, nn, e, budget)
         if st != 'ok':
             return out, None
-        rroot = build_rcell(sp)
+        if fam not in EXOTIC_FAMILIES:
+            rroot = build_rcell(sp)
         aux = {'ref': refboc.encode([rroot], has_idx=bool(seed & 1), has_crc=bool(seed & 2))}
         # helpers are library calls too: they run under the same clock and budget, never unmetered
-        st2, twin, _ = metered(budget, build_lib, sp)
+        st2, twin, _ = metered(budget, builder, sp)
         aux['twin'] = twin if st2 == 'ok' else root
         st2, own, _ = metered(budget, root.to_boc)
         if st2 == 'ok':
